@@ -75,7 +75,7 @@ def run(ctx):
         if k % 4 != 3 and any(a[0] == b[0] and a[1] == b[1] and a[2] != b[2] for a in oq for b in oq):
             jobs.append(dict(case=c, variant=VARIANTS[3]))
     # Connectivity form: all edges between one pair of populations share one kernel
-    for c in sel[:300] + [c for c in sel[300:] if c['cfg']['approx']]:
+    for c in sel[:300] + [c for c in delayed if c['cfg']['approx'] and c not in sel[:300]]:      # every dde_approx case
         kern = {(e['d'], tuple(e['s2'])) for e in c['m']['edges']}
         if len(kern) == 1 and c['m']['kind'] == [1, 1, 2, 2] and c['cfg']['vec'] and (not c.get('discrete') or c['cfg']['approx']):
             jobs.append(dict(case=c, variant=VARIANTS[0], form='pop'))
